@@ -65,7 +65,7 @@ def complete(p):
     return p
 
 
-def prog_constants(p, j=1, max_hist=4, max_cmds=3, unlocked_bug=False):
+def prog_constants(p, j=1, max_hist=4, max_cmds=3, unlocked_bug=False, selfdep_panics=False):
     """TLA+ definitions for the constants of RedoSys."""
     plain = p['plain']
     rules = p['rules']
@@ -86,6 +86,7 @@ def prog_constants(p, j=1, max_hist=4, max_cmds=3, unlocked_bug=False):
     d['MaxHist'] = str(max_hist)
     d['MaxCmds'] = str(max_cmds)
     d['UnlockedBug'] = 'TRUE' if unlocked_bug else 'FALSE'
+    d['SelfDepPanics'] = 'TRUE' if selfdep_panics else 'FALSE'
     # SQLite's default BINARY collation orders by bytes
     d['NameSeq'] = seq([s(x) for x in sorted(list(plain) + list(rules), key=lambda x: x.encode())])
     return d
@@ -460,6 +461,43 @@ def par_unlocked():
 def parallel_family():
     return [complete(p) for p in [par_diamond(2), par_fan(3), par_shared('stamp'), par_shared('always'), par_fail(),
                                   par_unlocked()]]
+
+
+# dependency cycles ---------------------------------------------------------------------------
+def cycle(name, chain, back, entries, j=1, extra=None):
+    """targets chain[0] -> chain[1] -> ... -> chain[-1] -> back; commands enter at `entries`"""
+    rules = {}
+    for i, t in enumerate(chain):
+        nxt = chain[i + 1] if i + 1 < len(chain) else back
+        deps = [nxt] + (extra.get(t, []) if extra else [])
+        rules[t + '.do'] = [{t: [ifchange(*deps), out('stdout', *deps)]}]
+    plain = list(chain) + ['s']
+    if extra:
+        for v in extra.values():
+            for x in v:
+                if x not in plain:
+                    plain.append(x)
+                    rules[x + '.do'] = [{x: [ifchange('s'), out('stdout', 's')]}]
+    cmds = []
+    for e in entries:
+        cmds.append(('ifchange', list(e), False, 1))
+        cmds.append(('redo', list(e), False, j))
+    return {'name': name, 'plain': plain, 'rules': rules, 'init': ['s'] + list(rules), 'cmds': cmds,
+            'user': [], 'rm': [], 'doedits': [], 'bounds': (2, 2)}
+
+
+def cycle_family():
+    fam = [
+        cycle('cyc1', ['a'], 'a', [['a']]),
+        cycle('cyc2', ['a', 'b'], 'a', [['a'], ['b']]),
+        cycle('cyc3', ['a', 'b', 'c'], 'a', [['a'], ['c']]),
+        cycle('cyc_prefix', ['p', 'a', 'b'], 'a', [['p'], ['b']]),
+        cycle('cyc_sib', ['a', 'b'], 'a', [['a']], extra={'a': ['ok']}),
+        cycle('cyc2_j2', ['a', 'b'], 'a', [['a', 'b']], j=2),
+        cycle('cyc_long', ['t1', 't2', 't3', 't4', 't5'], 't4', [['t1']]),
+    ]
+    fam[-1]['bounds'] = (1, 1)
+    return [complete(p) for p in fam]
 
 
 FAMILY_DEEP = [fail_diamond, override2, stamp_toggle, stamped_deep, ifcreate_deep, do_recreate]
